@@ -288,7 +288,12 @@ def analyse(e, bound, info):
         finally:
             info["cond"] -= 1
         b2 = set(bound)
-        if e[2] != "_":
+        if isinstance(e[2], (tuple, list)):
+            # a refutable catch pattern (C05's catchpat family) binds the names it lists
+            pat = e[2]
+            for n_ in (pat[1] if pat[0] in ("plist", "plistl") else [pat[1]] if pat[0] == "pname" else []):
+                bind(b2, n_)
+        elif e[2] != "_":
             bind(b2, e[2])
         analyse(e[3], b2, info)
         return
